@@ -161,6 +161,9 @@ pub fn install_panic_hook() {
                 .location()
                 .map(|l| format!("{}:{}", l.file(), l.line()))
                 .unwrap_or_default();
+            // with panic = abort the process ends here: leave a marker for the driver
+            #[cfg(panic = "abort")]
+            eprintln!("VCHECK-ABORT-PANIC {} @ {} [case {}]", msg, loc, case_string());
             LAST_PANIC.with(|p| *p.borrow_mut() = format!("{} @ {}", msg, loc));
         } else {
             default(info);
